@@ -15,7 +15,7 @@ class script_num_decode_facts:
 
 @contract('spec.script.cast_to_bool', case='facts', props=('C19',))
 class cast_to_bool_facts:
-    params = {'b': Bytes(max=3, split=True)}
+    params = {'b': Bytes(max=9, split=True)}
 
     def ensures(b, result):
-        return (len(b) != 0) or (not result)
+        return all(sp._bool_facts(b, result))
